@@ -84,7 +84,7 @@ def plan(ctx):
             ("dotcart:3:innerbroadcast:sim", "dotcart", 3, 3, 6, "innerbroadcast", (2, 4), {"num": ctx.pick(120, 1500), "depth": 14})]
     if not Q:
         gen += [("dotdot:3", "dotdot", 3, 2, 4, "any", 1, {"num": 1500, "depth": 12}),
-                ("dotdot:3:innershared:5", "dotdot", 3, 3, 5, "innershared", 1, None),
+                ("dotdot:3:innershared:5", "dotdot", 3, 3, 5, "innershared", (1, 2), None),   # A, B at depth 1, up to 3 tokens on C at depth 2
                 ("cart2:2:same", "cart2", 2, 2, 4, "same", 3, None),
                 ("cartcart:3", "cartcart", 3, 1, 3, "any", 2, None),
                 ("dotcart:3:innermixed", "dotcart", 3, 1, 3, "innermixed", 2, None),
